@@ -1,5 +1,6 @@
 import PharmpyModel.C19.Model
 import PharmpyModel.C19.Spec
+import PharmpyModel.C19.Stats
 /-
   Helper lemmas for C19: the stable descending insertion sort is a sorted
   permutation; the ranking loop computes competition ranks on a sorted list;
@@ -460,6 +461,78 @@ theorem categorize_nodup_fold (vs : List Vis) :
       split
       · exact nodup_unionS _ _ h2
       · exact h2
+
+/-! ### labelled statistics -/
+
+theorem sum_perm {l₁ l₂ : List Rat} (h : l₁.Perm l₂) : Stats.sum l₁ = Stats.sum l₂ := by
+  induction h with
+  | nil => rfl
+  | cons x _ ih => simp only [Stats.sum, List.foldr_cons] at *; rw [ih]
+  | swap x y l => simp only [Stats.sum, List.foldr_cons]; grind
+  | trans _ _ ih1 ih2 => rw [ih1, ih2]
+
+theorem filter_beq_of_nodup (syms : List String) (x : String) (h : syms.Nodup) :
+    syms.filter (fun y => y == x) = if x ∈ syms then [x] else [] := by
+  induction syms with
+  | nil => simp
+  | cons s ss ih =>
+    rw [List.nodup_cons] at h
+    simp only [List.filter_cons]
+    by_cases hs : s = x
+    · subst hs
+      have : ss.filter (fun y => y == s) = [] := by
+        rw [ih h.2]; simp [h.1]
+      simp [this]
+    · have hb : (s == x) = false := by simpa using hs
+      have hx : x ≠ s := fun e => hs e.symm
+      simp only [hb, Bool.false_eq_true, if_false, ih h.2, List.mem_cons, hx, false_or]
+
+theorem deltaNames_eq_filter (syms cols : List String) (h : syms.Nodup) :
+    Stats.deltaNames syms cols = cols.filter (fun x => syms.contains x) := by
+  unfold Stats.deltaNames
+  induction cols with
+  | nil => rfl
+  | cons c cs ih =>
+    simp only [List.flatMap_cons, List.filter_cons, ih, filter_beq_of_nodup syms c h]
+    by_cases hc : c ∈ syms
+    · simp [hc]
+    · simp [hc]
+
+theorem deltaNames_perm (syms cols : List String) (hs : syms.Nodup) (hc : cols.Nodup)
+    (hsub : ∀ s ∈ syms, s ∈ cols) : (Stats.deltaNames syms cols).Perm syms := by
+  rw [deltaNames_eq_filter syms cols hs, List.perm_ext_iff_of_nodup (List.Pairwise.filter _ hc) hs]
+  intro a
+  simp only [List.mem_filter, List.contains_eq_mem, decide_eq_true_eq]
+  exact ⟨fun h => h.2, fun h => ⟨hsub a h, h⟩⟩
+
+theorem quadForm_perm {l l' : List String} (h : l.Perm l') (g : String → Rat) (C : String → String → Rat) :
+    Stats.quadForm l g C = Stats.quadForm l' g C := by
+  unfold Stats.quadForm
+  have inner : ∀ a, Stats.sum (l.map (fun b => g a * C a b * g b)) = Stats.sum (l'.map (fun b => g a * C a b * g b)) :=
+    fun a => sum_perm (h.map _)
+  rw [List.map_congr_left (fun a _ => inner a)]
+  exact sum_perm (h.map _)
+
+theorem lookupS_perm {α : Type} {l l' : List (String × α)} (h : l.Perm l') (hn : (l.map (·.1)).Nodup) (a : String) :
+    Stats.lookupS l a = Stats.lookupS l' a := by
+  induction h with
+  | nil => rfl
+  | cons x _ ih =>
+    simp only [List.map_cons, List.nodup_cons] at hn
+    obtain ⟨k, v⟩ := x
+    simp only [Stats.lookupS]
+    rw [ih hn.2]
+  | swap x y l =>
+    obtain ⟨k, v⟩ := x
+    obtain ⟨k', v'⟩ := y
+    simp only [List.map_cons, List.nodup_cons, List.mem_cons, not_or] at hn
+    simp only [Stats.lookupS]
+    by_cases h1 : k' = a <;> by_cases h2 : k = a <;> simp [h1, h2]
+    exact absurd (h1.trans h2.symm) hn.1.1
+  | trans h1 _ ih1 ih2 =>
+    rw [ih1 hn]
+    apply ih2
+    exact (h1.map _).nodup hn
 
 /-! ### idxmin -/
 
